@@ -553,7 +553,7 @@ Example exb_sets : forall t p, In t (view_list (wr_topics ex_resp)) -> In p (vie
   exists es k, wfe_message_set p = firstn k (ser wcomp es) /\ wf_entries wcomp es /\ (depth es < decode_depth)%nat.
 Proof.
   intros t p Ht Hp. destruct (ex_resp_sets t p Ht Hp) as [es [k [H1 [H2 H3]]]].
-  exists es, k. unfold decode_depth. repeat split; [exact H1|exact H2|lia].
+  exists es, k. unfold decode_depth, MAX_COMPRESSION_DEPTH. repeat split; [exact H1|exact H2|lia].
 Qed.
 
 Example C02_fetch_messages_one_broker_hyps :
